@@ -7,11 +7,14 @@ LOCALN = {0: "database lost", 1: "database one certificate behind (stop between 
           3: "database holds a record the Agglayer does not know"}
 
 
-def _rec(hist, last, local, keep, tiers):
+def _rec(hist, last, local, keep, tiers, qf=0):
     reach = ["refused"] if local == 3 else (["first"] if hist == 0 and last == 0 else {0: ["follows"], 1: ["undecided"], 2: ["replaces"]}[last])
+    if qf:
+        reach = reach + ["query failed"]
     OBLIGATIONS.append(dict(
-        name="C13.a restart: Agglayer has %d settled certificate(s), %s; %s%s" % (hist, LASTN[last], LOCALN[local], "; history kept" if keep else ""),
-        harness=F + "ZZVerif_C13_Recover", params={"HIST": hist, "LAST": last, "LOCAL": local, "KEEP": keep}, tiers=tiers, reach=reach,
+        name="C13.a restart: Agglayer has %d settled certificate(s), %s; %s%s%s" % (hist, LASTN[last], LOCALN[local], "; history kept" if keep else "",
+             {0: "", 1: "; the first attempt's latest-non-settled query fails", 2: "; the first attempt's latest-settled query fails"}[qf]),
+        harness=F + "ZZVerif_C13_Recover", params={"HIST": hist, "LAST": last, "LOCAL": local, "KEEP": keep, "QF": qf}, tiers=tiers, reach=reach,
         time_limit_s=1500,
         bounds="%d settled certificate(s) + %d more; every id, exit root, block span (32 bit), creation time, open status; header with or without previous exit root" % (hist, 1 if last else 0)))
 
@@ -27,6 +30,10 @@ for hist in (0, 1, 2):
             _rec(hist, last, local, 0, ("quick", "thorough") if q else ("thorough",))
             if local in (1, 2):
                 _rec(hist, last, local, 1, ("thorough",))
+
+for hist, last, local, qf, tiers in ((1, 1, 1, 1, ("quick", "thorough")), (1, 2, 0, 1, ("quick", "thorough")), (1, 0, 2, 2, ("quick", "thorough")), (0, 1, 0, 1, ("thorough",)),
+                                     (1, 1, 1, 2, ("thorough",)), (2, 2, 1, 1, ("thorough",)), (1, 2, 2, 1, ("thorough",)), (1, 1, 3, 1, ("thorough",))):
+    _rec(hist, last, local, 0, tiers, qf)
 
 for hist in (1, 2):
     for local in (0, 2):
@@ -49,6 +56,7 @@ ASSUMPTIONS = [
     "contiguous block ranges starting at block 1, each certificate starting from the previous one's new exit root, at most one non-settled certificate on top",
     "certificate metadata is the V2 word this node writes (NewCertificateMetadata(...).ToHash()); legacy V0/V1 words are outside",
     "certificate ids of the chain are pairwise different",
+    "transient Agglayer failures: one failing latest-settled or latest-non-settled query on the first start-up attempt (obligations that say so)",
     "storage faults are failing INSERT/DELETE statements (SQLite RAISE(ABORT) triggers natively, error returns in the SQL model); SQLite's atomic commit is trusted",
 ]
 OUTSIDE = ("the send loop itself (C02: not applicable); a retry submitted but not stored (local in-error record vs. a new Agglayer certificate at the same height): "
